@@ -131,6 +131,18 @@ class _Strip(ast.NodeTransformer):
             return None
         return ast.copy_location(ast.Assign(targets=[n.target], value=n.value), n)
 
+    def visit_Expr(self, n):
+        self.generic_visit(n)
+        c = n.value
+        if isinstance(c, ast.Call) and isinstance(c.func, ast.Name) and c.func.id in ("warn", "print"):
+            # the wording of a warning / a verbose print is not behaviour of interest
+            for x in ast.walk(c):
+                if isinstance(x, ast.Constant) and isinstance(x.value, str):
+                    x.value = ""
+                if isinstance(x, ast.JoinedStr):
+                    x.values = [v for v in x.values if not isinstance(v, ast.Constant)]
+        return n
+
     def visit_Assert(self, n):
         self.generic_visit(n)
         if n.msg is not None and not getattr(n.msg, "_acsa_msg", False):
@@ -727,6 +739,7 @@ def _as_store(t):
 # names of functions / methods defined in the repository, and those of them that are syntactically
 # free of effects on their arguments, on self and on globals (set by substitute_all from BOTH the
 # reference and the current tree: a function counts as pure only if it is pure in both)
+_LIST_RETURNING: Set[str] = set()  # module-level repo functions annotated `-> list[...]` (in both trees)
 _REPO_FUNCS: Set[str] = set()
 _PURE_FUNCS: Set[str] = set()
 _BUILTIN_PURE = {"len", "list", "sorted", "set", "dict", "tuple", "str", "int", "float", "any", "all", "max", "min", "sum", "range", "zip", "enumerate",
@@ -825,7 +838,7 @@ def _impure(e) -> bool:
 def _is_list_expr(e, list_names: Set[str]) -> bool:
     if isinstance(e, (ast.List, ast.ListComp)):
         return True
-    if isinstance(e, ast.Call) and isinstance(e.func, ast.Name) and e.func.id in LIST_MAKERS:
+    if isinstance(e, ast.Call) and isinstance(e.func, ast.Name) and (e.func.id in LIST_MAKERS or e.func.id in _LIST_RETURNING):
         return True
     if isinstance(e, ast.Name) and e.id in list_names:
         return True
@@ -1632,7 +1645,7 @@ def _replace_node(root, old, new):
 # pass 6: canonical names and canonical order of independent statements
 # ---------------------------------------------------------------------------------------------
 class _Eff:
-    __slots__ = ("reads", "writes", "attr_reads", "attr_writes", "opaque", "jump", "local_only")
+    __slots__ = ("reads", "writes", "attr_reads", "attr_writes", "opaque", "jump", "local_only", "bare_reads", "attr_bases")
 
 
 def _effects(st) -> _Eff:
@@ -1640,6 +1653,8 @@ def _effects(st) -> _Eff:
     e.reads, e.writes, e.attr_reads, e.attr_writes = set(), set(), set(), set()
     e.opaque = False
     e.jump = False
+    e.bare_reads, e.attr_bases = set(), set()
+    is_base = {id(n.value) for n in [st] + list(_walk_no_nested(st)) if isinstance(n, (ast.Attribute, ast.Subscript))}
     comp_t = {id(x) for c in [st] + list(_walk_no_nested(st)) if isinstance(c, ast.comprehension) for x in ast.walk(c.target)}
     bound = set()
     for c in [st] + list(_walk_no_nested(st)):
@@ -1651,6 +1666,8 @@ def _effects(st) -> _Eff:
         if isinstance(n, ast.Name) and id(n) not in comp_t and n.id not in bound:
             if isinstance(n.ctx, ast.Load):
                 e.reads.add(n.id)
+                if id(n) not in is_base:
+                    e.bare_reads.add(n.id)
             else:
                 e.writes.add(n.id)
         elif isinstance(n, ast.Attribute):
@@ -1660,12 +1677,17 @@ def _effects(st) -> _Eff:
                 e.attr_writes.add(n.attr)
         if isinstance(n, (ast.Attribute, ast.Subscript)) and isinstance(n.ctx, (ast.Store, ast.Del)):
             base = n.value
+            through_attr = isinstance(n, ast.Attribute)
             while isinstance(base, (ast.Attribute, ast.Subscript, ast.Call)):
                 if isinstance(base, ast.Attribute):
                     e.attr_writes.add(base.attr)
+                    through_attr = True
                 base = base.func if isinstance(base, ast.Call) else base.value
             if isinstance(base, ast.Name):
-                e.writes.add(base.id)
+                if through_attr:
+                    e.attr_bases.add(base.id)  # an attribute of the object is written, not the name
+                else:
+                    e.writes.add(base.id)
         if isinstance(n, ast.AugAssign) and isinstance(n.target, ast.Name):
             e.reads.add(n.target.id)
         if isinstance(n, ast.Call):
@@ -1675,12 +1697,17 @@ def _effects(st) -> _Eff:
             if isinstance(f, ast.Attribute):
                 if f.attr in MUTATORS and f.attr not in PANDAS_PURE:
                     base = f.value
+                    through_attr = False
                     while isinstance(base, (ast.Attribute, ast.Subscript, ast.Call)):
                         if isinstance(base, ast.Attribute):
                             e.attr_writes.add(base.attr)
+                            through_attr = True
                         base = base.func if isinstance(base, ast.Call) else base.value
                     if isinstance(base, ast.Name):
-                        e.writes.add(base.id)
+                        if through_attr:
+                            e.attr_bases.add(base.id)
+                        else:
+                            e.writes.add(base.id)
                     if f.attr in _REPO_FUNCS and not (isinstance(f.value, ast.Name) and f.value.id != "self"):
                         e.opaque = True
                 elif f.attr in _REPO_FUNCS and f.attr not in _PURE_FUNCS and f.attr not in _LIB_PURE_METHODS:
@@ -1713,6 +1740,8 @@ def _commute(a: _Eff, b: _Eff) -> bool:
     if a.writes & (b.reads | b.writes) or b.writes & a.reads:
         return False
     if a.attr_writes & (b.attr_reads | b.attr_writes) or b.attr_writes & a.attr_reads:
+        return False
+    if a.attr_bases & (b.bare_reads | b.writes) or b.attr_bases & (a.bare_reads | a.writes):
         return False
     return True
 
@@ -2029,7 +2058,7 @@ def substitute_equivalents(rel: str, tree: ast.Module, ref_sources: Dict[str, st
 def substitute_all(trees: Dict[str, ast.Module], sources: Dict[str, str], ref_sources: Dict[str, str], stats: Dict[str, list]) -> None:
     """All modules at once: new private methods can be called from another module (a helper added
     to a base class)."""
-    global _REPO_FUNCS, _PURE_FUNCS
+    global _REPO_FUNCS, _PURE_FUNCS, _LIST_RETURNING
     ref_trees = []
     for rel, src in ref_sources.items():
         if rel not in _REF_CACHE:
@@ -2038,6 +2067,19 @@ def substitute_all(trees: Dict[str, ast.Module], sources: Dict[str, str], ref_so
         ref_trees.append(_REF_CACHE[rel][0])
     repo_a, pure_a = pure_function_names(ref_trees)
     repo_b, pure_b = pure_function_names(list(trees.values()))
+    def list_returning(ts):
+        out, allf = set(), set()
+        for t in ts:
+            for n in t.body:
+                if isinstance(n, ast.FunctionDef):
+                    allf.add(n.name)
+                    if n.returns is not None and ast.unparse(n.returns).replace("List", "list").startswith("list"):
+                        out.add(n.name)
+        return out, allf
+
+    la, fa = list_returning(ref_trees)
+    lb, fb = list_returning(list(trees.values()))
+    _LIST_RETURNING = {f for f in la | lb if (f not in fa or f in la) and (f not in fb or f in lb)}
     _REPO_FUNCS = repo_a | repo_b
     _PURE_FUNCS = {f for f in (pure_a | pure_b) if (f not in repo_a or f in pure_a) and (f not in repo_b or f in pure_b)}
     new_methods: Dict[str, ast.FunctionDef] = {}
